@@ -272,6 +272,146 @@ def xliqLine (s : HistState) (t : List String) : Option String :=
   | _ => none
 
 
+/-- `H xliqt id tokenMaxA tokenMaxB minSqrtPrice maxSqrtPrice feeA(3) feeB(3) authMode`:
+    increase_liquidity_by_token_amounts_v2 on the current state (read-only): price window, liquidity estimated
+    from the fee-excluded maxima, then exactly the increase instruction with the maxima as limits -/
+def xliqtLine (s : HistState) (t : List String) : Option String :=
+  match t with
+  | [id, tA, tB, minP, maxP, bA, mA, fA3, bB, mB, fB3, auth] => do
+    let idN ← id.toNat?
+    let tA ← tA.toNat?
+    let tB ← tB.toNat?
+    let minP ← minP.toNat?
+    let maxP ← maxP.toNat?
+    let authN ← auth.toNat?
+    let fA ← parseTFee bA mA
+    let fB ← parseTFee bB mB
+    match posGet s.positions idN with
+    | none => pure "err NoSuchPosition"
+    | some pos =>
+      if authN = 2 then pure "err AccountNotSigner"
+      else if authN = 1 then pure "err MissingOrInvalidDelegate"
+      else if s.pool.price < minP || s.pool.price > maxP then pure "err PriceSlippageOutOfBounds"
+      else
+        match estimateMaxLiquidity s.pool.price pos.lower pos.upper (excludedAmount fA tA).1 (excludedAmount fB tB).1 with
+        | .error e => pure ("err " ++ e.name)
+        | .ok liq =>
+          if liq = 0 then pure "err LiquidityZero"
+          else
+            -- the increase instruction with this liquidity; the limits are the token maxima
+            let cap := U64_MAX / 4
+            let big := U128_MAX
+            match histStep { s with vaultA := big, vaultB := big } (.modify idN liq true) with
+            | .error e => pure ("err " ++ e.name)
+            | .ok (_, outs) =>
+              let da := outs.getD 0 0
+              let db := outs.getD 1 0
+              match includedAmount fA da with
+              | .error e => pure ("err " ++ e.name)
+              | .ok a =>
+                match includedAmount fB db with
+                | .error e => pure ("err " ++ e.name)
+                | .ok b =>
+                  if a.1 > tA || b.1 > tB then pure "err TokenMaxExceeded"
+                  else if a.1 > cap || b.1 > cap then pure "err Code(1)"
+                  else
+                    let _ := (fA3, fB3, id, auth)
+                    pure s!"ok {a.1} {b.1} {da} {db}"
+  | _ => none
+
+/-- net movement of one token in a reposition: (amount on the owner's side, its transfer fee, from owner?) -/
+def repoNet (f : Option TFee) (dec inc : Nat) : R (Nat × Nat × Bool) :=
+  if dec > inc then
+    let d := dec - inc
+    .ok (d, (excludedAmount f d).2, false)
+  else
+    match includedAmount f (inc - dec) with
+    | .error e => .error e
+    | .ok a => .ok (a.1, a.2, true)
+
+/-- `H xrepo id newLower newUpper newLiquidity slackMode feeA(3) feeB(3) authMode`: reposition_liquidity_v2 on the
+    current state (read-only) = withdraw all liquidity; re-range keeping owed amounts; deposit newLiquidity;
+    settle the net amounts.  The limits are derived from the expected amounts exactly as the harness does. -/
+def xrepoLine (s : HistState) (t : List String) : Option String :=
+  match t with
+  | [id, nlo, nhi, newLiq, slack, bA, mA, _fA3, bB, mB, _fB3, auth] => do
+    let id ← id.toNat?
+    let nlo ← nlo.toInt?
+    let nhi ← nhi.toInt?
+    let newLiq ← newLiq.toNat?
+    let slack ← slack.toNat?
+    let auth ← auth.toNat?
+    let fA ← parseTFee bA mA
+    let fB ← parseTFee bB mB
+    let cap := U64_MAX / 4
+    match posGet s.positions id with
+    | none => pure "err NoSuchPosition"
+    | some pos =>
+      if newLiq = 0 then pure "err LiquidityZero"
+      else if auth = 2 then pure "err AccountNotSigner"
+      else if auth = 1 then pure "err MissingOrInvalidDelegate"
+      else
+        let big := U128_MAX
+        let s0 := { s with vaultA := big, vaultB := big }
+        -- (1) withdraw everything
+        let dec : R (HistState × Nat × Nat) :=
+          if pos.liq = 0 then .ok (s0, 0, 0)
+          else match histStep s0 (.modify id pos.liq false) with
+            | .error e => .error e
+            | .ok (s1, outs) => .ok (s1, outs.getD 0 0, outs.getD 1 0)
+        match dec with
+        | .error e => pure ("err " ++ e.name)
+        | .ok (s1, da, db) =>
+          -- the whole computation with given limits
+          let run (minA minB maxA maxB : Nat) : R (Nat × Nat × Bool × Nat × Nat × Bool × Nat × Nat) :=
+            if (excludedAmount fA da).1 < minA then .error .TokenMinSubceeded
+            else if (excludedAmount fB db).1 < minB then .error .TokenMinSubceeded
+            else
+              match posGet s1.positions id with
+              | none => .error .NoSuchPosition
+              | some p1 =>
+                match resetPositionRange s1.pool.ts p1 nlo nhi true with
+                | .error e => .error e
+                | .ok p2 =>
+                  let s2 := { s1 with positions := posReplace s1.positions id p2, vaultA := big, vaultB := big }
+                  match histStep s2 (.modify id newLiq true) with
+                  | .error e => .error e
+                  | .ok (_, outs) =>
+                    let ia := outs.getD 0 0
+                    let ib := outs.getD 1 0
+                    match repoNet fA da ia with
+                    | .error e => .error e
+                    | .ok (ta, fa, fromA) =>
+                      if ia + (if fromA then fa else 0) > U64_MAX then .error .TransferFeeCalculationError
+                      else if ia + (if fromA then fa else 0) > maxA then .error .TokenMaxExceeded
+                      else
+                        match repoNet fB db ib with
+                        | .error e => .error e
+                        | .ok (tb, fb, fromB) =>
+                          if ib + (if fromB then fb else 0) > U64_MAX then .error .TransferFeeCalculationError
+                          else if ib + (if fromB then fb else 0) > maxB then .error .TokenMaxExceeded
+                          else .ok (ta, fa, fromA, tb, fb, fromB, ia, ib)
+          -- limits as the harness derives them from the loose run
+          let lims : Nat × Nat × Nat × Nat :=
+            match run 0 0 U64_MAX U64_MAX with
+            | .error _ => (0, 0, U64_MAX, U64_MAX)
+            | .ok (_, fa, fromA, _, fb, fromB, ia, ib) =>
+              let xa := (excludedAmount fA da).1
+              let xb := (excludedAmount fB db).1
+              let ya := min (ia + (if fromA then fa else 0)) U64_MAX
+              let yb := min (ib + (if fromB then fb else 0)) U64_MAX
+              if slack = 0 then (0, 0, U64_MAX, U64_MAX)
+              else if slack = 1 then (xa, xb, ya, yb)
+              else if fromA then (xa, xb, ya - 1, yb) else (min (xa + 1) U64_MAX, xb, ya, yb)
+          match run lims.1 lims.2.1 lims.2.2.1 lims.2.2.2 with
+          | .error e => pure ("err " ++ e.name)
+          | .ok (ta, fa, fromA, tb, fb, fromB, ia, ib) =>
+            let vA := min s.vaultA cap
+            let vB := min s.vaultB cap
+            if (fromA && ta > cap) || (fromB && tb > cap) || (!fromA && da - ia > vA) || (!fromB && db - ib > vB) then pure "err Code(1)"
+            else pure s!"ok {ta} {fa} {if fromA then 1 else 0} {tb} {fb} {if fromB then 1 else 0} {da} {db} {ia} {ib}"
+  | _ => none
+
 /-- `H xpos kind ver id authMode a1 a2 feeA(3) feeB(3)`: a position instruction of the Anchor path on the
     current state (read-only): update_fees_and_rewards, collect_fees (v1 / v2), close_position,
     reset_position_range.  authMode 0 owner, 1 stranger, 2 owner not signing, 3 one-token delegate,
